@@ -49,6 +49,7 @@ type SubStats struct {
 	Known          map[string]*KnownHit `json:"known_findings_hit,omitempty"`
 	Violations     []Violation          `json:"violations,omitempty"`
 	ViolationCount int64                `json:"violation_count"`
+	ViolationKeys  map[string]int64     `json:"violation_keys,omitempty"`
 	Exhaustive     bool                 `json:"exhaustive"`
 	CapHit         string               `json:"cap_hit,omitempty"`
 	Max            map[string]int64     `json:"max,omitempty"`
@@ -138,7 +139,13 @@ func (c *Ctx) Report(s *SubStats, v Violation) {
 		return
 	}
 	s.ViolationCount++
-	if len(s.Violations) < 12 {
+	if s.ViolationKeys == nil {
+		s.ViolationKeys = map[string]int64{}
+	}
+	if _, ok := s.ViolationKeys[v.Key]; ok || len(s.ViolationKeys) < 200 {
+		s.ViolationKeys[v.Key]++
+	}
+	if len(s.Violations) < 40 {
 		// keep at most a few per key so different causes stay visible
 		same := 0
 		for _, o := range s.Violations {
